@@ -73,4 +73,19 @@ SPEC = {
             {"name": "history", "test": "TestC06", "checks": [1200, 12000], "shards": [4, 14], "timeout": [900, 7200]},
         ],
     },
+    "C05": {
+        "level": "fault_enumeration",
+        "rule": "for each generated program (2..3 real clients; counters/text/arrays/objects/presence; sync, push-only, late attach; with and "
+                "without snapshot thresholds) a fault-free twin run records every storage event (wrapped database call x {before, after it took "
+                "effect}) issued by the handler of every sync step; every such event and the loss of every response is a fault point (all of "
+                "them up to a cap per program, a seeded sample above it); the program is re-run once per point with that single fault, the "
+                "client retries the identical pack, and the run must: let the retry succeed, keep every (actor, clientSeq) at most once in a "
+                "gap-free log, converge, and end in the same content as the fault-free twin. non-trivial = the fault fired while the pack "
+                "carried >=1 change; distinct = distinct (program, fault point)",
+        "assumptions": ["in-memory database backend", "faults are injected at the Database interface (decorator), one per run",
+                        "fault points inside the window of known finding F12 are excluded by construction and counted"],
+        "parts": [
+            {"name": "faults", "test": "TestC05", "checks": [60, 500], "shards": [8, 14], "timeout": [900, 7200]},
+        ],
+    },
 }
